@@ -61,6 +61,7 @@ func c12Run(c c12Case, log *[]string) (viol string, nontrivial bool, classes []s
 
 	// model
 	tracked := map[string]string{} // id -> "queued" | "held"
+	stale := map[string]bool{}     // fed back concurrently with its own finish, feedback won: one stale delivery is possible
 	items := map[string]*models.Item{}
 	finishedIDs := []string{}
 	frozen := false
@@ -212,7 +213,10 @@ func c12Run(c c12Case, log *[]string) (viol string, nontrivial bool, classes []s
 		case "read":
 			q := keys("queued")
 			it := tryRead()
-			if it != nil {
+			if it != nil && stale[it.GetID()] {
+				say("read->%s (stale)", it.GetID())
+				delete(stale, it.GetID())
+			} else if it != nil {
 				say("read->%s", it.GetID())
 				if tracked[it.GetID()] != "queued" {
 					return fmt.Sprintf("step %d: the output delivered %s which the model does not have queued (queued: %v)", step, it.GetID(), q), false, nil
@@ -271,6 +275,40 @@ func c12Run(c c12Case, log *[]string) (viol string, nontrivial bool, classes []s
 			}
 			delete(tracked, id)
 			finishedIDs = append(finishedIDs, id)
+		case "race":
+			// feedback and finish of the same held seed issued concurrently (two finisher workers could not do this, but
+			// the API allows it): either order is fine, the accounting must hold afterwards
+			h := keys("held")
+			if len(h) == 0 || frozen {
+				continue
+			}
+			id := h[op.N%len(h)]
+			fit := items[id]
+			var fb, fin *c12Call
+			if op.M%2 == 0 {
+				fb = call("feedback", id, func() error { return ReceiveFeedback(fit) })
+				fin = call("finish", id, func() error { return MarkAsFinished(fit) })
+			} else {
+				fin = call("finish", id, func() error { return MarkAsFinished(fit) })
+				fb = call("feedback", id, func() error { return ReceiveFeedback(fit) })
+			}
+			synctest.Wait()
+			say("race(%s)", id)
+			classSet["has:race"] = true
+			if !fin.done || fin.err != nil {
+				return fmt.Sprintf("step %d: finish(%s) racing with its feedback: done=%v err=%v", step, id, fin.done, fin.err), false, nil
+			}
+			if !fb.done {
+				return fmt.Sprintf("step %d: feedback(%s) racing with its finish blocks", step, id), false, nil
+			}
+			if fb.err != nil && fb.err != ErrFeedbackItemNotPresent {
+				return fmt.Sprintf("step %d: feedback(%s) racing with its finish returned %v", step, id, fb.err), false, nil
+			}
+			delete(tracked, id)
+			finishedIDs = append(finishedIDs, id)
+			if fb.err == nil {
+				stale[id] = true
+			}
 		case "finish-again", "finish-unknown", "feedback-unknown":
 			errorPath = true
 			var it *models.Item
@@ -386,12 +424,20 @@ func c12Run(c c12Case, log *[]string) (viol string, nontrivial bool, classes []s
 			if it == nil {
 				return fmt.Sprintf("drain: seeds %v never reach the output although a consumer reads", keys("queued")), false, nil
 			}
+			if stale[it.GetID()] {
+				delete(stale, it.GetID())
+				continue
+			}
 			if tracked[it.GetID()] != "queued" {
 				return fmt.Sprintf("drain: the output delivered %s which is not queued (%v)", it.GetID(), keys("queued")), false, nil
 			}
 			tracked[it.GetID()] = "held"
 		}
-		if it := tryRead(); it != nil {
+		for it := tryRead(); it != nil; it = tryRead() {
+			if stale[it.GetID()] {
+				delete(stale, it.GetID())
+				continue
+			}
 			return fmt.Sprintf("drain: the output delivered %s once more than it was inserted/fed back", it.GetID()), false, nil
 		}
 	}
@@ -447,6 +493,9 @@ func genC12(t *rapid.T) c12Case {
 	c := c12Case{Tokens: rapid.IntRange(1, 5).Draw(t, "tokens")}
 	kinds := []string{"insert", "insert", "insert", "insert", "read", "read", "read", "feedback", "feedback", "finish", "finish", "finish",
 		"feedback-unknown", "finish-unknown", "finish-again", "batch", "batch", "freeze", "stop"}
+	// ("race" - feedback concurrent with the finish of the same seed - is not generated here: when the feedback wins, the
+	// finished seed occupies a slot of the input buffer that the next accepted seed needs, a state no caller of the reactor
+	// produces and in which an insert legitimately waits; the accounting side of that race is checked by C12/race-stress)
 	n := rapid.IntRange(1, 40).Draw(t, "nops")
 	for i := 0; i < n; i++ {
 		k := kinds[rapid.IntRange(0, len(kinds)-1).Draw(t, "kind")]
@@ -488,4 +537,57 @@ func TestVerifKF_C12_FrozenAcceptsInsert(t *testing.T) {
 		c.Ops = append(c.Ops, c12Op{Kind: "insert"})
 	}
 	propC12(t, t, c)
+}
+
+
+// Stress: many rounds of feedback racing with the finish of the same seed, accounting checked after every round.
+// (The window between a presence check and a store is a few instructions wide: it needs volume, not variety.)
+func TestVerif_C12_RaceStress(t *testing.T) {
+	defer veriflib.Flush()
+	if veriflib.Replaying() {
+		var rc c12Case
+		if !veriflib.ReplayCase("C12/race-stress", &rc) {
+			t.Skip()
+		}
+	}
+	verifcfg.Quiet()
+	rounds := veriflib.N("C12_STRESS_ROUNDS", 30000, 300000)
+	var viol string
+	done := 0
+	synctest.Test(t, func(st *testing.T) {
+		out := make(chan *models.Item)
+		if err := Start(2, out); err != nil {
+			viol = err.Error()
+			return
+		}
+		defer Stop()
+		r := globalReactor
+		go func() {
+			for range out {
+			}
+		}()
+		defer close(out)
+		for i := 0; i < rounds; i++ {
+			it := c12NewSeed(fmt.Sprintf("r%d", i))
+			if err := ReceiveInsert(it); err != nil {
+				viol = fmt.Sprintf("round %d: insert: %v", i, err)
+				return
+			}
+			res := make(chan error, 2)
+			go func() { res <- ReceiveFeedback(it) }()
+			go func() { res <- MarkAsFinished(it) }()
+			<-res
+			<-res
+			if n, tb := len(r.tokenPool), len(GetStateTable()); n != 0 || tb != 0 {
+				viol = fmt.Sprintf("round %d: after feedback(%s) raced with finish(%s): %d token(s) in use, state table %v", i, it.GetID(), it.GetID(), n, GetStateTable())
+				return
+			}
+			done++
+		}
+	})
+	if viol != "" {
+		veriflib.Fail(t, "C12", "C12/race-stress", c12Case{Tokens: 2}, nil, "%s", viol)
+	}
+	veriflib.Record("C12/race-stress", fmt.Sprintf("rounds=%d shard=%d", done, veriflib.ShardIndex()), true, []string{fmt.Sprintf("rounds:%d", done)}, func() any { return map[string]any{"rounds": done} })
+	veriflib.Record("C12/race-stress", fmt.Sprintf("rounds=%d shard=%d b", done, veriflib.ShardIndex()), true, nil, nil)
 }
